@@ -90,7 +90,12 @@ TermHolds(c, r) ==
     [] c = "OnlyDocumentedException" -> \/ r.exc \in {"none", "Hang", "SupportBudget"}
                                         \/ (r.exc = "AssertionError" /\ r.fn = "epa" /\ r.smooth)
     [] c = "OutputsFinite"           -> r.exc = "none" => r.finite
-TermFailing(r) == {c \in Range(TermClauses) : ~TermHolds(c, r)}
+(* named input pattern of a known finding (the same as for C07 / C20): EPA was started from a GJK simplex with fewer than four
+   valid rows (observed by the harness), builds its first polytope from uninitialised memory and overflows its face array *)
+TermFailing(r) ==
+  LET f == {c \in Range(TermClauses) : ~TermHolds(c, r)} IN
+  IF f = {"OnlyDocumentedException"} /\ r.fn = "epa" /\ r.exc = "AssertionError" /\ r.simplexRows < 4
+  THEN f \cup {"ZONE_IncompleteSimplex"} ELSE f
 
 (* ---------------- primitive distance functions (C10, C11): kind = "prim" ----------------
    one record per call of a function of distance3d.distance on lattice primitives (or their lifts):
@@ -175,7 +180,9 @@ PenFailing(r) ==
        THEN f \cup {"ZONE_SeparatingNotMinimal"}   \* fourth named pattern: the vector separates exactly (TouchAfterMTV holds) but is longer than the depth
   ELSE IF f # {} /\ r.algo = "mpr" /\ r.coincident /\ f \subseteq {"ContactInBoth"}
        THEN f \cup {"ZONE_CoincidentCentres"}      \* second named pattern: both colliders sit at the same frame origin
-       ELSE f      \* (a third pattern, touching pairs with a contact position outside the colliders, was the aliased portal swap: repaired)
+  ELSE IF f # {} /\ r.algo = "mpr" /\ f \subseteq {"ContactInBoth"} /\ ((r.exact /\ r.fc = 0) \/ (~r.exact /\ ~r.deep))
+       THEN f \cup {"ZONE_Grazing"}                \* third named pattern: touching pair (certified depth 0) / no deep witness (flat colliders)
+       ELSE f
 
 (* ---------------- relations between queries (C12): kind = "pair" ----------------
    two runs of the same query on related scenes: rel = "swap" (arguments exchanged), "rigid" (one rigid motion
